@@ -11,6 +11,7 @@ import (
 	"time"
 
 	"verifharness/forge"
+	"verifharness/gw"
 	"verifharness/tsgu"
 )
 
@@ -41,6 +42,9 @@ type TunParams struct {
 	MintXFF  string   `json:"mintXFF"`
 	UseIP    string   `json:"useIP"`
 	UseXFF   string   `json:"useXFF"`
+	// Cid: connection identifier to present instead of a fresh unique one (websocket only): tunnels of different
+	// users that follow each other on one gateway may well carry the same identifier
+	Cid string `json:"cid,omitempty"`
 }
 
 func LoadScripts(path string) ([]Script, error) {
@@ -378,7 +382,14 @@ func (ps *ProtoSession) Finish() {
 	if t == nil {
 		return
 	}
-	defer t.Close()
+	defer func() {
+		t.Close()
+		if ps.S.Tun.Cid != "" && ps.S.Transport == "ws" {
+			// the identifier is used again by a later tunnel: wait until this one has left the gateway so that its
+			// last hook events are not mistaken for the next tunnel's
+			i.P.Wait(t.OpenMark, 5*time.Second, func(e gw.Event) bool { return e.Cid == t.Cid && e.Pt == "gw.exit" })
+		}
+	}()
 	if extra := t.AfterEnd(); len(extra) > 0 {
 		resps, dials, nf := 0, []interface{}{}, 0
 		for _, e := range extra {
